@@ -193,7 +193,8 @@ Section Prog.
       x <- rdn [g] (sp s) (slen s) ;;
       Ret (if form =? 2 then flat_map (bytes_le (znat e)) x else x)
     | 12 =>
-      (* forms 3 / 4: the repeat forms with a const item of a non-Copy type as operand *)
+      (* forms 3 / 4: the repeat forms with a const item of a non-Copy type as operand; form 5: the expression
+         repeat form inside a const fn generic over the length *)
       g <- (if form =? 0 then arr_list true e (vals ty 0 N)
             else if (form =? 1) || (form =? 3) then arr_repeat_ty true e (val ty 0) N
             else arr_repeat_expr true e (val ty 0) N) ;;
